@@ -51,6 +51,10 @@ CHECKS = {
          "Relational monitor between recorded list results and CheckIfAllowed answers over three routes (engine from objects, engine filled by InsertObject in document order, the built binary): every pod pair, pod<->address and pod-to-itself at every rule boundary +-1 x protocols. Held on the K worlds / Q queries in the evidence.",
          "list is the reference; boundary+-1 sampling visits every piece of two piece-wise constant functions; numeric ports only.",
          "runtime monitoring: differential oracle between list results and eval answers (library + binary)", "DESIGN.md §5 C03"),
+ 'C15': ('exploration',
+         "History + executable model: recorded sequential histories of InsertObject/DeleteObject/SetResources calls with a fixed query set after every step; each answer of the history engine is compared with a fresh engine built from the current objects (and the reference model); the engine's cache-hit counter (verif hook) identifies answers served from the cache, the event the no-leak clause is about. Held on the K histories / Q queries in the evidence.",
+         "Histories are sequential (the property quantifies over interleavings of calls, not threads), so refinement against the fresh engine is exact; model state = objects of the successful calls.",
+         "runtime monitoring: recorded call histories checked against a fresh-engine/model oracle, cache-hit hook", "DESIGN.md §5 C15"),
 }
 
 NOT_YET = "check not built yet (construction in progress, see DESIGN.md section 9)"
